@@ -194,7 +194,24 @@ def _vec_after_checks(S, v, before_list, key, spec, name_before, kind_before, nu
         bad = check_vec(v)
         if bad:
             return ("C08/wrong-dtype", "after the assignment: " + bad[1], "elements")
+        if k_after != kind_before and k_after in _STRICT:
+            # "promotes the whole column with existing elements converted": the elements that were
+            # not assigned must now be of the new kind itself, not merely belong to it by widening
+            try:
+                pos = set(positions(len(before_list), key)[0])
+            except Exception:
+                pos = set(range(len(before_list)))
+            for i, g in enumerate(got):
+                if i in pos or g is None:
+                    continue
+                if type(g) is not _STRICT[k_after]:
+                    return ("C08/wrong-dtype", "column promoted %s -> %s but existing element %d is still %r (%s)" % (
+                        kind_before, k_after, i, g, type(g).__name__), "not-converted")
     return None
+
+
+import datetime as _dt
+_STRICT = {"int": int, "float": float, "complex": complex, "datetime": _dt.datetime}
 
 
 def _should_succeed(before_list, key, spec, kind_before):
@@ -538,6 +555,11 @@ def _instrument(rng, rec):
     elif op == "rencols":
         rec["olds"]["k"] = rng.choice(["fseq", "flist", "ftuple", "list"])
         rec["news"]["k"] = rng.choice(["fseq", "flist", "ftuple", "list"])
+        # the names themselves are caller objects too: comparison / str() can raise
+        if rng.random() < 0.4:
+            rec["olds"]["fname"] = True
+        if rng.random() < 0.5:
+            rec["news"]["fname"] = True
 
 
 def natural_variants(rng, setup, rec):
